@@ -84,6 +84,8 @@ pub fn generate(r: &mut Prng, seed: u64, run: u64, thorough: bool) -> Scenario {
     }
     if replicas.iter().any(|x| x.uses_text()) {
         facts.version = (facts.version.0 % 10_000, facts.version.1 % 100, facts.version.2 % 100);
+    } else if r.chance(1, 3) {
+        facts.pad_some_names(r);
     }
     let disk = if mode == "disk" {
         let writer = if r.chance(1, 2) { 1 } else { 3 };
